@@ -32,5 +32,8 @@ def fill(add, not_yet):
     add("C17", "Lean 4 theorems about the geometry model (to/from GCS inverse and isometric for orthonormal bases, proper rotation matrices, isometry construction, grid axis/ordering/box laws) + Float correspondence with arim.geometry (bit-exact for grid vectors, box selection, distances)",
         "Proof over any commutative ring / ordered field for the written-out einsum conventions and grid arithmetic; the same definitions run on doubles and are compared with arim (bitwise where the code performs the same rounded operations, 32-64 ulp where einsum chooses the summation order); the laws of the property are evaluated on arim directly.",
         STD_NOTE)
-    for p in ["C03","C04","C05","C06","C07","C08","C09","C10","C11","C16","C19"]:
+    add("C16", "Lean 4 theorems about the probe-motion state machine (invariants of translate/rotate/flip/reference/reset over any history) + Float history correspondence with arim.core.Probe + invariant oracle",
+        "Proof of the rigid-motion invariants on the model for every operation and hence every history; the same state machine runs on doubles next to a real Probe on random histories (locations, normals, PCS, PCS coordinates compared after each operation); the invariants are also evaluated on arim directly.",
+        STD_NOTE)
+    for p in ["C03","C04","C05","C06","C07","C08","C09","C10","C11","C19"]:
         not_yet[p] = "check not built yet in this round (work in progress; Lean-4 proof + correspondence planned, see DESIGN.md section 6)"
